@@ -7,7 +7,8 @@ import re
 from . import spec, hgen
 from .wtypes import Ty, tup, wit, decls, resources, has_heap, camel, snake
 
-NL = 10   # heap ledger entries
+import os as _os
+NL = int(_os.environ.get('RUSTGEN_NL', '6'))   # heap ledger entries (quick tier; build_lib(nl=...) overrides)
 NH = 6    # handle ledger entries
 
 
@@ -74,7 +75,8 @@ def unroll(n, fmt):
     return "\n".join(fmt.replace("#", str(i)) for i in range(n))
 
 
-def prelude():
+def prelude(nl=None):
+    nl = nl or NL
     return r'''
   extern crate alloc as hal;
   use hal::vec::Vec;
@@ -121,6 +123,12 @@ def prelude():
     true
   }
 
+  pub static mut E_UTF8: bool = false;
+  pub fn s_from_utf8(v: Vec<u8>) -> Result<String, hal::string::FromUtf8Error> {
+    if !utf8_ok(&v, v.len()) { unsafe { E_UTF8 = true; } }
+    Ok(unsafe { String::from_utf8_unchecked(v) })
+  }
+
   /// Heap ledger.  Under Kani it is fed by recording shims that replace
   /// alloc::alloc::{alloc, alloc_zeroed, dealloc, realloc} (-Z stubbing); in a native
   /// concrete playback it is fed by the #[global_allocator] below (Kani ignores that item).
@@ -145,16 +153,21 @@ def prelude():
 @INSERT@
       if !done { OVERFLOW = true; }
     }
-    pub unsafe fn on_dealloc(p: *mut u8, size: usize, align: usize) {
-      if !ON { return; }
+    pub static mut E_DOUBLE_FREE: bool = false;
+    pub static mut E_BAD_FREE: bool = false;
+    pub static mut E_BAD_LAYOUT: bool = false;
+    /// returns false when the block must not be handed to the real allocator again
+    pub unsafe fn on_dealloc(p: *mut u8, size: usize, align: usize) -> bool {
+      if !ON { return true; }
       let mut found = false;
 @REMOVE@
-      if found { return; }
+      if found { return true; }
       let mut freed = false;
 @FREED@
-      if freed { { ON = false; kani::assert(false, "C06|double-free|dealloc of a block that was already freed"); } return; }
-      if OVERFLOW { return; }
-      if !NATIVE { { ON = false; kani::assert(false, "C06|bad-free|dealloc of a block this execution never allocated"); } }
+      if freed { E_DOUBLE_FREE = true; return false; }
+      if OVERFLOW { return true; }
+      if !NATIVE { E_BAD_FREE = true; return false; }
+      true
     }
     extern "Rust" {
       fn __rust_alloc(size: usize, align: usize) -> *mut u8;
@@ -164,13 +177,15 @@ def prelude():
     }
     pub unsafe fn s_alloc(l: Layout) -> *mut u8 { let p = __rust_alloc(l.size(), l.align()); on_alloc(p, l.size(), l.align()); p }
     pub unsafe fn s_alloc_zeroed(l: Layout) -> *mut u8 { let p = __rust_alloc_zeroed(l.size(), l.align()); on_alloc(p, l.size(), l.align()); p }
-    pub unsafe fn s_dealloc(p: *mut u8, l: Layout) { on_dealloc(p, l.size(), l.align()); __rust_dealloc(p, l.size(), l.align()) }
+    pub unsafe fn s_dealloc(p: *mut u8, l: Layout) { if on_dealloc(p, l.size(), l.align()) { __rust_dealloc(p, l.size(), l.align()) } }
     pub unsafe fn s_realloc(p: *mut u8, l: Layout, new_size: usize) -> *mut u8 {
-      on_dealloc(p, l.size(), l.align());
+      if !on_dealloc(p, l.size(), l.align()) { return core::ptr::null_mut(); }
       let q = __rust_realloc(p, l.size(), l.align(), new_size);
       on_alloc(q, new_size, l.align());
       q
     }
+    pub unsafe fn s_dealloc_nn(p: core::ptr::NonNull<u8>, l: Layout) { s_dealloc(p.as_ptr(), l) }
+    pub unsafe fn s_realloc_nn(p: core::ptr::NonNull<u8>, l: Layout, new_size: usize) -> *mut u8 { s_realloc(p.as_ptr(), l, new_size) }
     pub struct Nat;
     unsafe impl core::alloc::GlobalAlloc for Nat {
       unsafe fn alloc(&self, l: Layout) -> *mut u8 {
@@ -179,7 +194,7 @@ def prelude():
         p
       }
       unsafe fn dealloc(&self, p: *mut u8, l: Layout) {
-        if ON { NATIVE = true; on_dealloc(p, l.size(), l.align()); }
+        if ON { NATIVE = true; if !on_dealloc(p, l.size(), l.align()) { return; } }
         std::alloc::GlobalAlloc::dealloc(&std::alloc::System, p, l)
       }
     }
@@ -199,21 +214,31 @@ def prelude():
       c
     }
   }
-'''.replace("@RECYCLE@", unroll(NL, "      if ST[#] == 2 && P[#] == p { ST[#] = 0; }")) \
-   .replace("@INSERT@", unroll(NL, "      if !done && ST[#] == 0 { P[#] = p; SZ[#] = size; AL[#] = align; ST[#] = 1; done = true; }")) \
-   .replace("@REMOVE@", unroll(NL, "      if !found && ST[#] == 1 && P[#] == p { found = true; ST[#] = 2; LIVE -= 1; "
-                                   "if SZ[#] != size || AL[#] != align { { ON = false; kani::assert(false, \"C06|bad-layout|dealloc layout differs from the layout the block was allocated with\"); } } }")) \
-   .replace("@FREED@", unroll(NL, "      if ST[#] == 2 && P[#] == p { freed = true; }")) \
+'''.replace("@RECYCLE@", unroll(nl, "      if ST[#] == 2 && P[#] == p { ST[#] = 0; }")) \
+   .replace("@INSERT@", unroll(nl, "      if !done && ST[#] == 0 { P[#] = p; SZ[#] = size; AL[#] = align; ST[#] = 1; done = true; }")) \
+   .replace("@REMOVE@", unroll(nl, "      if !found && ST[#] == 1 && P[#] == p { found = true; ST[#] = 2; LIVE -= 1; "
+                                   "if SZ[#] != size || AL[#] != align { E_BAD_LAYOUT = true; } }")) \
+   .replace("@FREED@", unroll(nl, "      if ST[#] == 2 && P[#] == p { freed = true; }")) \
    .replace("@COUNT@", unroll(NH, "      if # < N && K[#] == kind && H[#] as u64 == h { c += 1; }")) \
-   .replace("@NL@", str(NL)).replace("@NH@", str(NH))
+   .replace("@NL@", str(nl)).replace("@NH@", str(NH))
 
 
+# every path from liballoc to the allocator shims: the public alloc/alloc_zeroed and the private
+# dealloc_nonnull/realloc_nonnull (what both the public dealloc/realloc and `Global` go through)
 STUBS = ["#[kani::stub(alloc::alloc::alloc, led::s_alloc)]",
          "#[kani::stub(alloc::alloc::alloc_zeroed, led::s_alloc_zeroed)]",
-         "#[kani::stub(alloc::alloc::dealloc, led::s_dealloc)]",
-         "#[kani::stub(alloc::alloc::realloc, led::s_realloc)]"]
-STUB_DOC = ["alloc::alloc::{alloc, alloc_zeroed, dealloc, realloc} are replaced (-Z stubbing) by shims that record "
-            "(pointer, size, align) in a ledger and forward to Kani's __rust_alloc/__rust_dealloc/__rust_realloc models"]
+         "#[kani::stub(alloc::alloc::dealloc_nonnull, led::s_dealloc_nn)]",
+         "#[kani::stub(alloc::alloc::realloc_nonnull, led::s_realloc_nn)]"]
+# String::from_utf8 (reached through the generated `string_lift` under debug assertions): core's validator
+# (word-at-a-time scan with align_offset arithmetic) costs CBMC minutes for a 2-byte string; it is replaced by a
+# shim that asserts well-formedness with the harness's own validator and converts unchecked.
+UTF8_STUB = "#[kani::stub(alloc::string::String::from_utf8, s_from_utf8)]"
+UTF8_STUB_DOC = ("alloc::string::String::from_utf8 is replaced (-Z stubbing) by a shim that asserts UTF-8 well-formedness with "
+                 "the harness's own validator (Unicode table 3-7) and converts with from_utf8_unchecked; "
+                 "core::str's validator itself is not executed (measured: > 4 min of SAT time for 2 symbolic bytes)")
+STUB_DOC = ["alloc::alloc::{alloc, alloc_zeroed, dealloc_nonnull, realloc_nonnull} (every route from liballoc to the allocator "
+            "shims) are replaced (-Z stubbing) by shims that record (pointer, size, align) in a ledger and forward to Kani's "
+            "__rust_alloc/__rust_alloc_zeroed/__rust_dealloc/__rust_realloc models"]
 
 
 def storable(rty):
@@ -262,6 +287,11 @@ def guest_impl(world, traits, res_ids):
                     "impl m::Guest%s for My%s {\n  fn new(v: u32) -> Self { unsafe { MY%s_NEW += 1; } My%s { v } }\n  fn get(&self) -> u32 { self.v }\n}")
                    % (c, c.upper(), c.upper(), c.upper(), c, c.upper(), c.upper(), c, c, c.upper(), c))
     return "\n".join(out)
+
+
+def _has_string(t):
+    from .wtypes import children
+    return t.kind == "string" or any(_has_string(c) for c in children(t))
 
 
 def func_harness(world, f, exports, post, traits, opts, L, S, res_ids):
@@ -395,7 +425,6 @@ def func_harness(world, f, exports, post, traits, opts, L, S, res_ids):
     elif f.result is not None and has_heap(f.result):
         struct_fail.append("C06|post-return|the result owns heap buffers but no __post_return_%s was generated" % name)
     hgen.kassert(ctx, "true", "led::LIVE == 0", "C06|leak-result|no block is live after post-return")
-    hgen.kassert(ctx, "true", "!led::OVERFLOW", "H|ledger|heap ledger overflow (harness bound)")
     hgen.kassert(ctx, "true", "hl::N <= %d" % NH, "H|ledger|handle ledger overflow (harness bound)")
     covers = [("true", "reached the end")]
     for v in in_vals[:2]:
@@ -406,13 +435,16 @@ def func_harness(world, f, exports, post, traits, opts, L, S, res_ids):
         ctx.emit('kani::cover!(%s, "%s");' % (c, what))
     for sf in struct_fail:
         ctx.emit('kani::assert(false, "%s");' % sf.replace('"', "'"))
+    ctx.emit("// @DISPATCH@")
     body = ["led::begin();"] + setup + decl + [l for l in ctx.lines if l]
-    unwind = max(L, S) + 3
-    text = "\n".join(["#[kani::proof]", "#[kani::unwind(%d)]" % unwind] + STUBS +
+    unwind = max(L, S) + int(_os.environ.get('RUSTGEN_UNW', '1'))
+    uses_str = any(_has_string(t) for _, t in f.params) and not opts.get("raw_strings")
+    text = "\n".join(["#[kani::proof]", "#[kani::unwind(%d)]" % unwind] + STUBS + ([UTF8_STUB] if uses_str else []) +
                      ["pub fn k_%s() { unsafe {" % name] + ["  " + l for l in body] + ["} }"])
     meta = {"function": f.name, "class": f.cls, "assumes": sorted(ctx.assumes), "unwind": unwind,
             "props": ["C05", "C06"] + (["C07"] if hs else []), "direction": "export",
-            "heap": bool(ctx.in_bufs or ctx.out_bufs or indirect), "handles": bool(hs)}
+            "heap": bool(ctx.in_bufs or ctx.out_bufs or indirect), "handles": bool(hs),
+            "stubs": [UTF8_STUB_DOC] if uses_str else []}
     return text, meta
 
 
@@ -448,6 +480,7 @@ def seq_harness(hname, mk, take, handle, kind, what):
     kani::assert(led::LIVE == 0, "C06|leak-result|no block is live at the end");
     kani::cover!(taken && nops == 3, "taken, three operations");
     kani::cover!(!taken && nops == 3, "never taken, three operations");
+    // @DISPATCH@
   } }""" % (hname, mk, "".join(ops), kind)]), {"function": "-", "class": what, "assumes": [
         "handle indices are non-zero table indices below u32::MAX (Resource::from_handle debug_asserts this)"],
         "unwind": 3, "props": ["C07"], "direction": "runtime-item", "heap": False, "handles": True}
@@ -492,10 +525,10 @@ def lifecycle_harness(res, kind):
     kani::assert(MY%(C)s_DROPS == consumed + 1 && MY%(C)s_LASTDROP == cur_v, "C07|export-dtor|the user's value is destroyed exactly once when the host drops the resource");
     kani::assert(MY%(C)s_NEW == consumed + 1, "C07|export-new|one user value per resource");
     kani::assert(led::LIVE == 0, "C06|leak-result|the boxed representation is freed by the dtor");
-    kani::assert(!led::OVERFLOW, "H|ledger|heap ledger overflow (harness bound)");
     kani::cover!(nops == 0, "constructor then dtor");
     kani::cover!(nops > 0 && RE_MODE == 0, "handle passed through an export");
     kani::cover!(nops > 0 && RE_MODE == 1, "into_inner and a new resource");
+    // @DISPATCH@
   } }""" % {"n": res.name, "c": c, "C": C, "s": snake(res.name), "k": kind}]), {
         "function": "[constructor]%s / re-pass / [dtor]%s" % (res.name, res.name), "class": "exported-resource-lifecycle",
         "assumes": ["the host issues fresh non-zero handle indices from resource.new and answers resource.rep with the rep it was given",
@@ -552,6 +585,7 @@ def import_calls_harness(res, kind):
     kani::assert(led::LIVE == 0, "C06|leak-result|no block is live at the end");
     kani::cover!(which == 0, "own to import"); kani::cover!(which == 1, "borrow to import");
     kani::cover!(which == 2, "own from import"); kani::cover!(which == 3, "constructor and method");
+    // @DISPATCH@
   } }""" % {"n": res.name, "c": c, "k": kind}]), {
         "function": "ri: eat / peek / mk / [constructor] / [method]get", "class": "imported-resource-calls",
         "assumes": ["handle indices are non-zero table indices below u32::MAX"],
@@ -616,11 +650,17 @@ HOST_STATE = r'''
   pub static mut HT_H: [u32; 2] = [0; 2];
   pub static mut HT_P: [*mut u8; 2] = [core::ptr::null_mut(); 2];
   pub static mut HT_LIVE: [bool; 2] = [false; 2];
+  pub static mut E_TABLE_OVERFLOW: bool = false;
+  pub static mut E_REP_UNKNOWN: bool = false;
+  pub static mut E_DROP_UNKNOWN: bool = false;
+  /// failed obligations are recorded here and asserted by a kani::any()-selected dispatch at the very end of each
+  /// harness, so that one failing obligation never hides (by Kani's assert-then-assume) the paths another one needs
+  pub static mut BAD: [bool; 512] = [false; 512];
   pub unsafe fn host_new(kind: u8, rep: *mut u8) -> u32 {
     let h: u32 = kani::any();
     kani::assume(h != 0 && h != u32::MAX);
     if HT_N > 0 { kani::assume(h != HT_H[0]); }
-    kani::assert(HT_N < 2, "H|ledger|host resource table overflow (harness bound)");
+    if HT_N >= 2 { E_TABLE_OVERFLOW = true; }
     if HT_N < 2 { HT_H[HT_N] = h; HT_P[HT_N] = rep; HT_LIVE[HT_N] = true; }
     HT_N += 1;
     h
@@ -628,7 +668,7 @@ HOST_STATE = r'''
   pub unsafe fn host_rep(kind: u8, h: u32) -> *mut u8 {
     if HT_N > 0 && HT_LIVE[0] && HT_H[0] == h { return HT_P[0]; }
     if HT_N > 1 && HT_LIVE[1] && HT_H[1] == h { return HT_P[1]; }
-    kani::assert(false, "C07|export-rep|resource.rep on a handle that is not live in the host's table");
+    E_REP_UNKNOWN = true;
     core::ptr::null_mut()
   }
 '''
@@ -648,7 +688,7 @@ def host_drop_fn(world):
       let mut found = false;
       if HT_N > 0 && HT_LIVE[0] && HT_H[0] == h { rep = HT_P[0]; HT_LIVE[0] = false; found = true; }
       else if HT_N > 1 && HT_LIVE[1] && HT_H[1] == h { rep = HT_P[1]; HT_LIVE[1] = false; found = true; }
-      kani::assert(found, "C07|own-in|resource.drop on a handle that is not live in the host's table (double drop)");
+      if !found { E_DROP_UNKNOWN = true; }
       if found {
 ''' + dt + r'''      }
     }
@@ -668,13 +708,42 @@ RE_PASS_USER = r'''
       let inner: My@C@ = x.into_inner();
       RE_SEEN = inner.v;
       drop(inner);
-      m::@C@::new(My@C@ { v: RE_NEWV })
+      m::@C@::new(<My@C@ as m::Guest@C@>::new(RE_NEWV))
     }
   }
 '''
 
 
-def build_lib(world, w_rs, opts, L, S, tier):
+GLOBAL_FLAGS = [
+    ("led::E_DOUBLE_FREE", "C06|double-free|dealloc of a block that was already freed"),
+    ("led::E_BAD_FREE", "C06|bad-free|dealloc of a block this execution never allocated"),
+    ("led::E_BAD_LAYOUT", "C06|bad-layout|dealloc layout differs from the layout the block was allocated with"),
+    ("led::OVERFLOW", "H|ledger|heap ledger overflow (harness bound)"),
+    ("E_TABLE_OVERFLOW", "H|ledger|host resource table overflow (harness bound)"),
+    ("E_REP_UNKNOWN", "C07|export-rep|resource.rep on a handle that is not live in the host's table"),
+    ("E_DROP_UNKNOWN", "C07|own-in|resource.drop on a handle that is not live in the host's table (double drop)"),
+    ("E_UTF8", "C05|arg|utf8: the bytes handed to String::from_utf8 are the (valid) bytes the host sent"),
+]
+
+
+def soften(text):
+    """kani::assert(c, "m"); -> BAD[k] |= !(c);  plus a kani::any()-selected dispatch at `// @DISPATCH@`."""
+    msgs = []
+
+    def rep(m):
+        msgs.append(m.group(2))
+        return "BAD[%d] |= !(%s);" % (len(msgs) - 1, m.group(1))
+    text = re.sub(r'kani::assert\((.*), "([^"]*)"\);', rep, text)
+    d = ["let dsel: usize = kani::any();"]
+    for k, msg in enumerate(msgs):
+        d.append('if dsel == %d { kani::assert(!BAD[%d], "%s"); }' % (k, k, msg))
+    for j, (flag, msg) in enumerate(GLOBAL_FLAGS):
+        d.append('if dsel == %d { kani::assert(!%s, "%s"); }' % (len(msgs) + j, flag, msg))
+    assert "// @DISPATCH@" in text
+    return text.replace("// @DISPATCH@", "\n  ".join(d)), len(msgs) + len(GLOBAL_FLAGS)
+
+
+def build_lib(world, w_rs, opts, L, S, tier, nl=None):
     """-> (lib.rs text, {harness name: meta(+ 'text')}, problems)"""
     mod_text = hgen.module_text(w_rs, ["exports", "t", "p", "x"])
     traits = hgen.parse_traits(mod_text)
@@ -724,6 +793,13 @@ def build_lib(world, w_rs, opts, L, S, tier):
         text, meta = import_calls_harness(world.imp_res[0], res_ids[world.imp_res[0].name])
         harnesses["k_res_import_calls"] = dict(meta, text=text)
         parts.append(text)
+    for k, v in harnesses.items():
+        soft, n = soften(v["text"])
+        for i, p in enumerate(parts):
+            if p is v["text"] or p == v["text"]:
+                parts[i] = soft
+        v["text"] = soft
+        v["obligations"] = n
     vh, hosts = verif_host(w_rs, world, res_ids)
     try:
         gi = guest_impl(world, traits, res_ids)
@@ -735,7 +811,7 @@ def build_lib(world, w_rs, opts, L, S, tier):
         "  use super::exports::t::p::x::*;", "  use super::exports::t::p::x as m;",
         "  use super::t::p::ri as mi;" if (world.imp_res or world.imp_funcs) else "",
         "  use super::_rt;" if has_rt else "",
-        prelude(), HOST_STATE, host_drop_fn(world), gi])
+        prelude(nl), HOST_STATE, host_drop_fn(world), gi])
     lib = "\n".join([
         "#![allow(warnings)]", "#![no_std]", '#![recursion_limit = "512"]', "extern crate alloc;", "extern crate std;",
         "pub mod b {", w_rs, common, "\n\n".join(parts), "  // @PLAYBACK@", "}", "}",
